@@ -53,19 +53,23 @@ CasesA == {<<"A", t, d, s, f>> : t \in Adv, d \in Adv, s \in Adv, f \in AllFmts}
 \* ------------------------------------------- B: collections of archetypes x configurations
 IdTok(p) == CASE p = 1 -> "i1" [] p = 2 -> "i2" [] p = 3 -> "i3" [] p = 4 -> "i4" [] OTHER -> "i5"
 
-\* 1: every optional value zero / empty;  2: rich and adversarial;  3: separators inside list elements
+\* 1: every optional value zero / empty;  2: rich and adversarial;  3: separators inside list elements.
+\* What a chunk says about itself (index, total, title) belongs to the archetype, not to the
+\* position p: a collection <<2, 1>> has its index-0 chunk second, <<1, 1>> repeats index 0
+\* (two documents merged), <<3, 2, 1>> is a reversed document.  Only the id is by position
+\* (ids identify chunks in the loop and filter invariants).
 Arch(a, p) ==
-    CASE a = 1 -> [Base EXCEPT !.id = <<IdTok(p)>>, !.text = <<>>, !.index = p - 1, !.level = 0, !.emb = <<3>>]
+    CASE a = 1 -> [Base EXCEPT !.id = <<IdTok(p)>>, !.text = <<>>, !.index = 0, !.level = 0, !.emb = <<3>>]
       [] a = 2 -> [Base EXCEPT !.id = <<IdTok(p)>>, !.text = <<"w1", "COMMA", "QUOTE", "LF", "w2">>,
                                !.title = <<"TAB", "w1">>, !.section = <<"w2", "CR", "LF">>,
                                !.path = << <<"w1">>, <<"w2", "CR", "LF">> >>, !.etypes = <<"paragraph", "list">>,
-                               !.hlevel = 2, !.pstart = 1, !.pend = 2, !.index = p - 1, !.total = 3, !.level = 2,
+                               !.hlevel = 2, !.pstart = 1, !.pend = 2, !.index = 1, !.total = 3, !.level = 2,
                                !.parent = <<"i1">>, !.children = << <<"i3">>, <<"i4">> >>, !.table = TRUE, !.image = TRUE,
                                !.chars = 5, !.words = 2, !.tokens = 1, !.emb = <<1, -2>>]
       [] a = 3 -> [Base EXCEPT !.id = <<IdTok(p), "QUOTE">>, !.text = <<"JSONISH", "NUL", "EMOJI">>,
                                !.title = <<"SP", "w1", "SP">>, !.path = << <<"w1", "COMMA", "w2">> >>,
                                !.section = <<"w1", "COMMA", "w2">>, !.etypes = <<"table">>,
-                               !.pstart = 3, !.pend = 3, !.index = p - 1, !.level = 1, !.list = TRUE,
+                               !.pstart = 3, !.pend = 3, !.index = 2, !.total = 5, !.level = 1, !.list = TRUE,
                                !.words = 7, !.emb = <<0, 5, -1>>]
 
 Colls(n, A) == UNION {[1..m -> A] : m \in 0..n}
@@ -83,14 +87,14 @@ CasesS == {<<"S", sel, f>> : sel \in Colls(MaxB, 1..3), f \in {"jsonl", "json"}}
 \* ------------------------------------------- D: filter chains
 FArch(a, p) ==
     CASE a = 1 -> [Base EXCEPT !.id = <<IdTok(p)>>, !.text = <<"w1", "W2">>, !.section = <<"w1">>, !.path = << <<"w1">> >>,
-                               !.pstart = 1, !.pend = 1, !.etypes = <<"paragraph">>, !.tokens = 1, !.index = p - 1]
+                               !.pstart = 1, !.pend = 1, !.etypes = <<"paragraph">>, !.tokens = 1, !.index = 2]
       [] a = 2 -> [Base EXCEPT !.id = <<IdTok(p)>>, !.text = <<"w2", "COMMA", "w3">>, !.section = <<"w2">>,
                                !.path = << <<"w1">>, <<"w2">> >>, !.pstart = 1, !.pend = 3, !.etypes = <<"list", "table">>,
-                               !.table = TRUE, !.list = TRUE, !.tokens = 5, !.index = p - 1]
+                               !.table = TRUE, !.list = TRUE, !.tokens = 5, !.index = 0]
       [] a = 3 -> [Base EXCEPT !.id = <<IdTok(p)>>, !.text = <<"W1", "LF", "w1", "w2">>, !.section = <<>>,
-                               !.pstart = 3, !.pend = 4, !.etypes = <<"table">>, !.image = TRUE, !.tokens = 9, !.index = p - 1]
+                               !.pstart = 3, !.pend = 4, !.etypes = <<"table">>, !.image = TRUE, !.tokens = 9, !.index = 1]
       [] a = 4 -> [Base EXCEPT !.id = <<IdTok(p)>>, !.text = <<>>, !.section = <<"w3">>, !.path = << <<"w3">> >>,
-                               !.pstart = 0, !.pend = 0, !.tokens = 0, !.index = p - 1]
+                               !.pstart = 0, !.pend = 0, !.tokens = 0, !.index = 0]
 
 Pr(kk, s, a, b, e, st) == [k |-> kk, s |-> s, a |-> a, b |-> b, e |-> e, set |-> st]
 Preds == { Pr("section", <<"w1">>, 0, 0, "", <<>>), Pr("section", <<"w2">>, 0, 0, "", <<>>), Pr("section", <<>>, 0, 0, "", <<>>),
@@ -111,11 +115,18 @@ McExpand(d) ==
       [] d[1] = "B" -> Case("export", ChunksOf(d[2]), FmtCfgSeq[d[3]][1], FmtCfgSeq[d[3]][2], 0, <<>>)
       [] d[1] = "C" -> Case("batch", ChunksOf(d[2]), BatchCfgSeq[d[3]][1], BatchCfgSeq[d[3]][2], d[4], <<>>)
       [] d[1] = "S" -> Case("stream", ChunksOf(d[2]), d[3], [DefCfg(d[3]) EXCEPT !.pretty = FALSE], 1, <<>>)
+      [] d[1] = "E" -> Case("export", FChunksOf(d[2]), d[4], DefCfg(d[4]), 0, <<PredSeq[d[3]]>>)
       [] d[1] = "D" -> Case("filter", FChunksOf(d[2]), "none", DefCfg("x"), 0,
                             IF d[4] = 0 THEN <<PredSeq[d[3]]>> ELSE <<PredSeq[d[3]], PredSeq[d[4]]>>)
 
-AllCases == CasesA \cup CasesB \cup CasesCUsed \cup CasesS \cup CasesD
+\* ------------------------------------------- E: a filtered collection is exported
+\* <<"E", sel, p, fmt>>: FChunksOf(sel) filtered by <<PredSeq[p]>>, the result exported
+CasesE == {<<"E", sel, p, f>> : sel \in {x \in Colls(MaxF + 1, 1..4) : Len(x) >= 2}, p \in 1..Len(PredSeq), f \in {"jsonl", "csv"}}
+
+AllCases == CasesA \cup CasesB \cup CasesCUsed \cup CasesS \cup CasesD \cup CasesE
 LoopCases == CasesCUsed \cup CasesS
+\* the negative control of position independence: JSON exports and loops of small collections
+PosCases == {c \in CasesB : FmtCfgSeq[c[3]][1] = "jsonl" /\ FmtCfgSeq[c[3]][2] = DefCfg("jsonl")} \cup CasesS
 
 \* ---------------------------------------------------------------- emission
 BatchOut(b) == [number |-> b.number, start |-> b.start, end |-> b.end, ids |-> BIds(b), cols |-> BCols(b), recs |-> BRecs(b)]
